@@ -1,7 +1,7 @@
 (* Corr.v — comparison of model outputs with the implementation's observables,
    evaluated by vm_compute from generated case files (definitions only). *)
 From Coq Require Import ZArith List Bool Lia.
-From Dendro Require Import Base Tree Grid Criteria Compute Index.
+From Dendro Require Import Base Tree Grid Criteria Compute Index Prune PruneGhost.
 Import ListNotations.
 Open Scope Z_scope.
 
@@ -47,3 +47,27 @@ Definition acc_eqb : acc_t -> acc_t -> bool :=
 Definition acc_case : Type := list Z * list tree * acc_t.
 Definition acc_ok (c : acc_case) : bool :=
   let '(labels, f, e) := c in acc_eqb (Index.acc_view labels f) e.
+
+(* ---- prune (C07): (n pixels, forest before, recorded params, args, user criteria,
+        expected (params after, (labels after, structures after))) *)
+Definition params_t : Type := Z * (Z * Z).
+Definition npix_eqb (a b : Z * Z) : bool := fst a * snd b =? fst b * snd a.
+Definition params_eqb (a b : params_t) : bool := (fst a =? fst b) && npix_eqb (snd a) (snd b).
+Definition prune_case : Type :=
+  nat * list tree * params_t * Z * (Z * Z) * list crit * (params_t * (list Z * sview_t)).
+Definition prune_ok (c : prune_case) : bool :=
+  let '(n, f, ps, ad, an, user, (eps, (el, es))) := c in
+  let '(ps', f') := Prune.prune ps ad an user f in
+  params_eqb ps' eps && zl_eqb (label_map n f') el && sview_eqb (sview f') es.
+
+(* ---- C08: (shape, adj, vals, minv, lax delta, lax npix, strict delta, strict npix,
+              implementation says the two hierarchies are equal) -> (tie ok?, repaired agrees?) *)
+Definition c08_case : Type := list Z * adjspec * list (option Z) * option Z * Z * (Z * Z) * Z * (Z * Z) * bool.
+(* returns indices where the faithful model's verdict differs from the implementation's *)
+Definition c08_ok (c : c08_case) : bool :=
+  let '(shape, a, vals, minv, d0, n0, d1, n1, impl_eq) := c in
+  Bool.eqb (fst (PruneGhost.c08_view shape a vals minv d0 n0 d1 n1)) impl_eq.
+(* indices where the repaired variant does NOT restore the equivalence *)
+Definition c08_repaired_ok (c : c08_case) : bool :=
+  let '(shape, a, vals, minv, d0, n0, d1, n1, impl_eq) := c in
+  snd (PruneGhost.c08_view shape a vals minv d0 n0 d1 n1).
